@@ -284,6 +284,26 @@ def _history_one(f, name, X1, X2, state, same):
                 m2.path(X2, alpha_multiplier=3.0)
                 r2 = m2.path(X1, alpha_multiplier=2.0)
                 ok &= (r1[3] == r2[3] and same(r1[0], r2[0])) or why.append("path after an earlier path") is None and False
+            # a refit on the SAME array object after its content was overwritten in place (a cache keyed on the object is stale)
+            buf = X1[::-1].copy() * 1.5
+            m3 = f()
+            m3.fit(buf)
+            buf[:] = X1
+            m3.fit(buf)
+            ok &= same(state(m3), ref) or why.append("refit on the same array object after it was overwritten in place") is None and False
+            # a refit after a hyper-parameter was changed and set back (state computed under the other value must not survive)
+            m4 = f()
+            orig = m4.get_params()
+            alt = {}
+            for k_, v_ in (("base_kernel", "rbf"), ("kernel", "rbf"), ("metric", "manhattan"), ("gemini", "mmd_ovo"), ("reg", 0.5)):
+                if k_ in orig and orig[k_] != v_ and not alt:
+                    alt[k_] = v_
+            if alt and not decorated:
+                m4.set_params(**alt)
+                m4.fit(X1)
+                m4.set_params(**{k_: orig[k_] for k_ in alt})
+                m4.fit(X1)
+                ok &= same(state(m4), ref) or why.append(f"refit on the same array after set_params({alt}) and back") is None and False
             m.predict(X1)
             m.score(X1)
             ok &= np.array_equal(X1, Xc) or why.append("input array modified") is None and False
